@@ -192,10 +192,9 @@ Proof.
   intros Hs. constructor.
   - reflexivity.
   - reflexivity.
-  - intros cls d _. unfold base_post. rewrite Hs. destruct (get_skip s); simpl.
-    + pose proof (sort_items_sorted d) as E. destruct (sort_items d) as [|[k v] l]; auto.
-      cbn [tag_first_sorted]. destruct (pystr_eqb k type_key); auto. simpl in E. apply sorted_keys_cons in E. exact E.
-    + rewrite pystr_eqb_refl. apply sort_items_sorted.
+  - intros cls d _. unfold base_post. rewrite Hs. destruct (get_skip s); cbn [app].
+    + apply tfs_of_sorted. apply sort_items_sorted.
+    + apply tfs_tag_then_sorted. apply sort_items_sorted.
   - intros m. apply tfs_filter.
   - intros _ k v m Hin. apply tfs_same_keys. symmetry. apply jset_keys_in. exact Hin.
   - reflexivity.
@@ -206,13 +205,13 @@ Lemma has_tag_in m : has_tag m = true <-> In type_key (map fst m).
 Proof.
   unfold has_tag. rewrite existsb_exists. split.
   - intros [[k v] [Hi E]]. simpl in E. apply pystr_eqb_eq in E. subst. apply in_map_iff. exists (type_key, v). auto.
-  - intros Hi. apply in_map_iff in Hi as [[k v] [E Hi]]. simpl in E. subst. exists (type_key, v). split; auto.
-    simpl. apply pystr_eqb_refl.
+  - intros Hi. apply in_map_iff in Hi as [[k v] [E Hi]]. simpl in E. subst. exists (type_key, v). split; [exact Hi|].
+    reflexivity.
 Qed.
 Lemma no_tag_iff m : no_tag m = true <-> ~ In type_key (map fst m).
 Proof.
-  unfold no_tag. rewrite <- has_tag_in. destruct (has_tag m); simpl; split; intros; try discriminate; auto.
-  exfalso; auto.
+  unfold no_tag. rewrite <- has_tag_in. destruct (has_tag m); simpl; split; intros; try discriminate; auto;
+    try (exfalso; auto; fail); try congruence.
 Qed.
 
 Lemma shape_no_tag s : get_skip s = true -> shape s (fun m => no_tag m = true).
@@ -241,3 +240,325 @@ Proof.
 Qed.
 (* the default shape: no skip, no test dialect *)
 Definition is_default_tagging (s : slots) : Prop := get_skip s = false /\ is_test s = false.
+
+Lemma shape_default s : is_default_tagging s -> shape s (fun m => tagged_or_placeholder m = true).
+Proof.
+  intros [Hs Ht]. constructor; try (intros E; rewrite Ht in E; discriminate).
+  - reflexivity.
+  - intros i. reflexivity.
+  - intros cls d _. unfold base_post. rewrite Hs. cbn [app]. unfold tagged_or_placeholder. rewrite pystr_eqb_refl. reflexivity.
+  - apply top_filter_raw.
+Qed.
+
+(* ---------- induction principles for the nested types ---------- *)
+Lemma pval_ind' (P : pval -> Prop) :
+  P VNone -> (forall b, P (VBool b)) -> (forall z, P (VInt z)) -> (forall s, P (VStr s)) ->
+  (forall c m p, P p -> P (VEnum c m p)) -> (forall r, P (VFloat r)) -> (forall p, P (VPath p)) ->
+  (forall l, Forall P l -> P (VTuple l)) -> (forall l, Forall P l -> P (VFset l)) -> forall v, P v.
+Proof.
+  intros H1 H2 H3 H4 H5 H6 H7 H8 H9. fix IH 1.
+  intros [|b|z|x|c m p|r|p|l|l]; [apply H1|apply H2|apply H3|apply H4|apply H5, IH|apply H6|apply H7|apply H8|apply H9].
+  - induction l as [|y l IHl]; constructor; [apply IH|exact IHl].
+  - induction l as [|y l IHl]; constructor; [apply IH|exact IHl].
+Qed.
+Lemma source_ind' (P : source -> Prop) :
+  P SNo -> (forall u t, P (SText u t)) -> (forall u r, P (SMem u r)) -> (forall p, P (SFile p)) ->
+  (forall l, Forall P l -> P (SSet l)) -> forall s, P s.
+Proof.
+  intros H1 H2 H3 H4 H5. fix IH 1. intros [|u t|u r|p|l]; [apply H1|apply H2|apply H3|apply H4|apply H5].
+  induction l as [|y l IHl]; constructor; [apply IH|exact IHl].
+Qed.
+Lemma origin_ind' (P : origin -> Prop) :
+  P ONo -> (forall s r, P (OCode s r)) -> (forall s, P (OGen s)) -> (forall s p, P (OXml s p)) -> (forall s, P (OEntire s)) ->
+  (forall l, Forall P l -> P (OMulti l)) -> forall o, P o.
+Proof.
+  intros H1 H2 H3 H4 H5 H6. fix IH 1. intros [|sc r|sc|sc p|sc|l]; [apply H1|apply H2|apply H3|apply H4|apply H5|apply H6].
+  induction l as [|y l IHl]; constructor; [apply IH|exact IHl].
+Qed.
+Lemma node_ind' (P : node -> Prop) :
+  (forall a c o ps ks, Forall (fun k => Forall P (snd (snd k))) ks -> P (Node a c o ps ks)) -> forall n, P n.
+Proof.
+  intros Hn. fix IH 1. intros [a c o ps ks]. apply Hn.
+  induction ks as [|[f [sh l]] ks IHk]; constructor; [|exact IHk]. simpl.
+  induction l as [|y l IHl]; constructor; [apply IH|exact IHl].
+Qed.
+
+Lemma omap_Forall {A B} (f : A -> option B) (Q : B -> Prop) l : forall vs,
+  omap f l = Some vs -> Forall (fun x => forall v, f x = Some v -> Q v) l -> Forall Q vs.
+Proof.
+  induction l as [|x l IH]; simpl; intros vs E Hl.
+  - injection E as <-. constructor.
+  - destruct (f x) eqn:Ex; [|discriminate]. destruct (omap f l) eqn:El; [|discriminate]. injection E as <-.
+    inversion Hl; subst. constructor; auto.
+Qed.
+
+Section Shapes.
+  Variable s : slots.
+  Variable P : list (pystr * sval) -> Prop.
+  Hypothesis HP : shape s P.
+  Let Q (p : pystr * sval) : Prop := all_maps P (snd p).
+
+  Lemma values_base_post cls d : Forall Q d -> Forall Q (base_post s cls d).
+  Proof.
+    intros Hd. unfold base_post. apply Forall_app. split.
+    - destruct (get_skip s); repeat constructor.
+    - destruct (get_sort s); auto. eapply Permutation_Forall; [apply sort_items_perm|exact Hd].
+  Qed.
+  Lemma values_filter (p : pystr * sval -> bool) m : Forall Q m -> Forall Q (filter p m).
+  Proof. rewrite !Forall_forall. intros Hm x Hx. apply filter_In in Hx. apply Hm. tauto. Qed.
+  Lemma values_jset k v m : Forall Q m -> all_maps P v -> Forall Q (jset k v m).
+  Proof.
+    intros Hm Hv. induction m as [|[k' v'] m IH]; simpl.
+    - repeat constructor. exact Hv.
+    - inversion Hm; subst. destruct (pystr_eqb k' k); constructor; auto.
+  Qed.
+
+  Lemma am_int z : all_maps P (ser_int s z).
+  Proof. unfold ser_int. destruct (ints_as_str s); constructor. Qed.
+  Lemma am_pval v : forall t, all_maps P (ser_pval s t v).
+  Proof.
+    induction v as [|b|z|x|c m p IH|r|p|l IH|l IH] using pval_ind'; intros t; simpl; try constructor; auto.
+    - destruct (is_int_ty t); [apply am_int|constructor].
+    - apply Forall_map. eapply Forall_impl; [|exact IH]. simpl. auto.
+    - apply Forall_map. eapply Forall_impl; [|exact IH]. simpl. auto.
+  Qed.
+
+  Ltac fcons := repeat first [apply Forall_nil | apply Forall_cons]; unfold Q; cbn [snd kv].
+  Ltac scalar := solve [apply am_str | apply am_null | apply am_int | apply am_bool].
+  Ltac keys_ok := cbn [map fst kv]; unfold type_key; intros Hk; simpl in Hk; intuition discriminate.
+
+  Lemma am_source reg x : forall v, ser_source s reg x = Some v -> all_maps P v.
+  Proof.
+    induction x as [|u t|u r|p|l IH] using source_ind'; intros v E.
+    - injection E as <-. constructor; [apply (sh_empty _ _ HP)|constructor].
+    - simpl in E. destruct (get_sidx s).
+      + destruct (index_of _ reg); [|discriminate]. injection E as <-. constructor; [apply (sh_idx _ _ HP)|fcons; constructor].
+      + injection E as <-. constructor.
+        * apply (sh_pop _ _ HP). apply (sh_base _ _ HP). keys_ok.
+        * apply values_filter, values_base_post. fcons; scalar.
+    - simpl in E. destruct (get_sidx s).
+      + destruct (index_of _ reg); [|discriminate]. injection E as <-. constructor; [apply (sh_idx _ _ HP)|fcons; constructor].
+      + injection E as <-. constructor.
+        * apply (sh_pop _ _ HP). apply (sh_base _ _ HP). keys_ok.
+        * apply values_filter, values_base_post. fcons; try scalar. destruct r; constructor.
+    - simpl in E. destruct (get_sidx s).
+      + destruct (index_of _ reg); [|discriminate]. injection E as <-. constructor; [apply (sh_idx _ _ HP)|fcons; constructor].
+      + injection E as <-. constructor.
+        * apply (sh_pop _ _ HP). apply (sh_base _ _ HP). keys_ok.
+        * apply values_filter, values_base_post. fcons; scalar.
+    - simpl in E. destruct (get_sidx s).
+      + destruct (index_of _ reg); [|discriminate]. injection E as <-. constructor; [apply (sh_idx _ _ HP)|fcons; constructor].
+      + destruct (omap (ser_source s reg) l) as [vs|] eqn:El; [|discriminate]. injection E as <-. constructor.
+        * apply (sh_pop _ _ HP). apply (sh_base _ _ HP). keys_ok.
+        * apply values_filter, values_base_post. fcons; try scalar. constructor.
+          eapply omap_Forall; [exact El|exact IH].
+  Qed.
+
+  Lemma am_point p : all_maps P (ser_point s p).
+  Proof.
+    unfold ser_point. constructor; [apply (sh_base _ _ HP); keys_ok|].
+    apply values_base_post. fcons; apply am_int.
+  Qed.
+  Lemma am_range r : all_maps P (ser_range s r).
+  Proof.
+    unfold ser_range. constructor; [apply (sh_base _ _ HP); keys_ok|].
+    apply values_base_post. fcons; apply am_point.
+  Qed.
+  Lemma am_position o : all_maps P (ser_position s o).
+  Proof.
+    induction o as [|sc r|sc|sc p|sc|l IH] using origin_ind'; simpl.
+    - constructor; [apply (sh_empty _ _ HP)|constructor].
+    - apply am_range.
+    - apply am_range.
+    - constructor; [apply (sh_base _ _ HP); keys_ok|]. apply values_base_post. fcons; scalar.
+    - constructor; [apply (sh_base _ _ HP); keys_ok|]. apply values_base_post. constructor.
+    - constructor; [apply (sh_base _ _ HP); keys_ok|]. apply values_base_post. fcons. constructor.
+      apply Forall_map. exact IH.
+  Qed.
+
+  (* the origin mapping is empty (NoOrigin) or has a "source" key: what the test dialect's assignment relies on *)
+  Definition origin_like (v : sval) : Prop :=
+    exists m, v = JMap m /\ (m = [] \/ In (lit "source") (map fst m)).
+  Lemma base_post_keeps_key cls d k : In k (map fst d) -> In k (map fst (base_post s cls d)).
+  Proof.
+    intros Hk. unfold base_post. rewrite map_app. apply in_or_app. right.
+    destruct (get_sort s); auto. eapply Permutation_in; [apply Permutation_map, sort_items_perm|exact Hk].
+  Qed.
+
+  Lemma am_origin reg o : forall v, ser_origin s reg o = Some v -> all_maps P v /\ origin_like v.
+  Proof.
+    assert (Simple : forall (cls : string) sc o' v,
+      match ser_source s reg sc with
+      | Some sv => Some (JMap (base_post s (lit cls) [kv "source" sv; kv "position" (ser_position s o')]))
+      | None => None
+      end = Some v -> all_maps P v /\ origin_like v).
+    { intros cls sc o' v E. destruct (ser_source s reg sc) as [sv|] eqn:Es; [|discriminate]. injection E as <-. split.
+      - constructor; [apply (sh_base _ _ HP); keys_ok|]. apply values_base_post. fcons.
+        + eapply am_source; eauto.
+        + apply am_position.
+      - eexists; split; [reflexivity|]. right. apply base_post_keeps_key. simpl. auto. }
+    induction o as [|sc r|sc|sc p|sc|l IH] using origin_ind'; intros v E.
+    - injection E as <-. split; [constructor; [apply (sh_empty _ _ HP)|constructor]|]. exists []. auto.
+    - exact (Simple "CodeOrigin"%string sc (OCode sc r) v E).
+    - exact (Simple "GeneratedCodeOrigin"%string sc (OGen sc) v E).
+    - exact (Simple "XMLFileOrigin"%string sc (OXml sc p) v E).
+    - exact (Simple "Origin"%string sc (OEntire sc) v E).
+    - simpl in E. destruct (ser_source s reg _) as [sv|] eqn:Es; [|discriminate].
+      destruct (omap (ser_origin s reg) l) as [vs|] eqn:El; [|discriminate]. injection E as <-. split.
+      + constructor; [apply (sh_base _ _ HP); keys_ok|]. apply values_base_post. fcons.
+        * eapply am_source; eauto.
+        * apply (am_position (OMulti l)).
+        * constructor. eapply omap_Forall; [exact El|]. eapply Forall_impl; [|exact IH]. simpl. intros a Ha v Hv. apply (Ha v Hv).
+      + eexists; split; [reflexivity|]. right. apply base_post_keeps_key. simpl. auto.
+  Qed.
+
+  Section Nodes.
+    Variable H : pystr -> pystr.
+    Variable ct : ctable.
+    Variable pt : ptab.
+    (* no field is called like one of pyoak's own keys *)
+    Hypothesis names_ok : forall c f, In f (fields_of ct c) -> fd_name f <> type_key /\ fd_name f <> lit "origin".
+
+    Let Q' (p : pystr * sval) : Prop := all_maps P (snd p) /\ (fst p = lit "origin" -> origin_like (snd p)).
+
+    Lemma q'_base_post cls d : Forall Q' d -> Forall Q' (base_post s cls d).
+    Proof.
+      intros Hd. unfold base_post. apply Forall_app. split.
+      - destruct (get_skip s); repeat constructor. simpl. discriminate.
+      - destruct (get_sort s); auto. eapply Permutation_Forall; [apply sort_items_perm|exact Hd].
+    Qed.
+    Lemma q'_q m : Forall Q' m -> Forall Q m.
+    Proof. apply Forall_impl. intros a [Ha _]. exact Ha. Qed.
+
+    Lemma stub_ok out : P out -> Forall Q' out -> is_test s = true ->
+      all_maps P (JMap (stub_origin_source (test_stub true s) out)).
+    Proof.
+      intros Hout Hv Ht. unfold stub_origin_source.
+      destruct (jget (lit "origin") out) as [x|] eqn:Eg; [|constructor; auto using q'_q].
+      pose proof (jget_in _ _ _ Eg) as Hin. pose proof (jget_key _ _ _ Eg) as Hkey.
+      rewrite Forall_forall in Hv. destruct (Hv _ Hin) as [Hx Hol]. simpl in Hx, Hol.
+      destruct x; try (constructor; [exact Hout|apply q'_q, Forall_forall, Hv]).
+      destruct (Hol eq_refl) as [m [[= <-] Hm]].
+      inversion Hx as [| | | | | |kv0 Hpm Hvm]; subst.
+      constructor.
+      - apply (sh_set _ _ HP Ht); auto.
+      - apply values_jset; [apply q'_q, Forall_forall, Hv|].
+        constructor.
+        + destruct Hm as [->|Hs]; [apply (sh_single _ _ HP Ht)|apply (sh_set _ _ HP Ht); auto].
+        + apply values_jset; [exact Hvm|apply (sh_stub _ _ HP Ht)].
+    Qed.
+
+    Theorem ser_node_shape reg ids armed n : forall v,
+      ser_node H ct pt current_nv s reg ids armed n = Some v -> all_maps P v.
+    Proof.
+      induction n as [a c o ps ks IH] using node_ind'. intros v E. simpl in E.
+      destruct (assoc_nat a ids) as [i|]; [|discriminate].
+      destruct (ser_origin s reg o) as [ov|] eqn:Eo; [|discriminate].
+      destruct (omap _ ks) as [kvals|] eqn:Ek; [|discriminate].
+      destruct (existsb _ armed); [discriminate|]. injection E as <-.
+      destruct (am_origin _ _ _ Eo) as [Hov Hol].
+      (* the values of the child fields *)
+      assert (Hkv : Forall Q kvals).
+      { eapply omap_Forall; [exact Ek|]. eapply Forall_impl; [|exact IH]. intros [f [sh l]] Hl v Ev. simpl in *.
+        destruct (omap _ l) as [vs|] eqn:El; [|discriminate]. injection Ev as <-. unfold Q. simpl.
+        assert (Hvs : Forall (all_maps P) vs).
+        { eapply omap_Forall; [exact El|]. eapply Forall_impl; [|exact Hl]. simpl. intros x Hx w Hw. apply (Hx w Hw). }
+        destruct sh; simpl; [constructor| |constructor; exact Hvs].
+        destruct vs; [constructor|]. inversion Hvs; auto. }
+      set (user := map _ (fields_of ct c)).
+      assert (Huser : Forall Q' user).
+      { subst user. apply Forall_map. apply Forall_forall. intros f Hf. destruct (names_ok c f Hf) as [_ Hno]. split; simpl.
+        - destruct (fd_role f).
+          + destruct (assoc (fd_name f) ps); [apply am_pval|constructor].
+          + destruct (assoc (fd_name f) kvals) as [w|] eqn:Ea; [|constructor].
+            clear - Ea Hkv. induction kvals as [|[k' v'] r IHr]; simpl in Ea; [discriminate|]. inversion Hkv; subst.
+            destruct (pystr_eqb k' (fd_name f)); [injection Ea as <-; auto|auto].
+        - intros Ef. exfalso. apply Hno. exact Ef. }
+      assert (Hkeys : ~ In type_key (map fst ([kv "id" (JStr i); kv "content_id" (JStr (cid_of H ct (Node a c o ps ks))); kv "origin" ov] ++ user))).
+      { rewrite map_app. intros Hi. apply in_app_or in Hi as [Hi|Hi].
+        - revert Hi. keys_ok.
+        - subst user. rewrite map_map in Hi. simpl in Hi. apply in_map_iff in Hi as [f [Ef Hf]].
+          destruct (names_ok c f Hf) as [Hn _]. congruence. }
+      assert (Hd : Forall Q' ([kv "id" (JStr i); kv "content_id" (JStr (cid_of H ct (Node a c o ps ks))); kv "origin" ov] ++ user)).
+      { apply Forall_app. split; [|exact Huser]. repeat constructor; simpl; try discriminate; auto. }
+      unfold node_post. cbn [v_d16 v_stub current_nv].
+      set (ch := (children_key, JList (map JStr (get_child_fields ct c)))).
+      assert (Hch : Q' ch). { split; simpl; [constructor; apply Forall_map, Forall_forall; constructor|discriminate]. }
+      assert (Hout : forall d, d = [kv "id" (JStr i); kv "content_id" (JStr (cid_of H ct (Node a c o ps ks))); kv "origin" ov] ++ user ->
+                     P (base_post s c (if is_explorer s then d ++ [ch] else d))
+                     /\ Forall Q' (base_post s c (if is_explorer s then d ++ [ch] else d))).
+      { intros d ->. split.
+        - apply (sh_base _ _ HP). destruct (is_explorer s); [|exact Hkeys].
+          rewrite map_app. intros Hi. apply in_app_or in Hi as [Hi|Hi]; [auto|]. revert Hi. subst ch. keys_ok.
+        - apply q'_base_post. destruct (is_explorer s); [|exact Hd]. apply Forall_app. split; auto. }
+      destruct (Hout _ eq_refl) as [Hp Hq].
+      destruct (is_explorer s); (destruct (is_test s) eqn:Et; [apply stub_ok; auto|constructor; auto using q'_q]).
+    Qed.
+  End Nodes.
+End Shapes.
+
+(* ---------- the explorer dialect lists each node's child field names ---------- *)
+Lemma jget_unique k v m : In (k, v) m -> (forall v', In (k, v') m -> v' = v) -> jget k m = Some v.
+Proof.
+  induction m as [|[k' w] m IH]; simpl; [tauto|]. intros Hin Hu.
+  destruct (pystr_eqb_spec k' k) as [->|Hk].
+  - f_equal. apply Hu. auto.
+  - apply IH.
+    + destruct Hin as [[= -> ->]|]; [congruence|auto].
+    + intros v' Hv'. apply Hu. auto.
+Qed.
+
+Theorem explorer_children H ct pt s reg ids armed n m :
+  (forall c f, In f (fields_of ct c) -> fd_name f <> children_key) ->
+  is_explorer s = true ->
+  ser_node H ct pt current_nv s reg ids armed n = Some (JMap m) ->
+  jget children_key m = Some (JList (map JStr (get_child_fields ct (cls n)))).
+Proof.
+  intros Hnames He E. destruct n as [a c o ps ks]. simpl in E.
+  destruct (assoc_nat a ids) as [i|]; [|discriminate].
+  destruct (ser_origin s reg o) as [ov|]; [|discriminate].
+  destruct (omap _ ks) as [kvals|]; [|discriminate].
+  destruct (existsb _ armed); [discriminate|]. injection E as <-.
+  unfold node_post. rewrite He. cbn [v_d16 current_nv].
+  assert (Ht : is_test s = false). { unfold is_explorer in He. unfold is_test. destruct (od_dial (sl_opts s)) as [[]|]; auto; discriminate. }
+  rewrite Ht. simpl cls.
+  match goal with |- jget _ (base_post _ _ (?d0 ++ _)) = _ => set (d := d0) end.
+  set (ch := JList (map JStr (get_child_fields ct c))).
+  assert (Hin : In (children_key, ch) (base_post s c (d ++ [(children_key, ch)]))).
+  { unfold base_post. apply in_or_app. right. destruct (get_sort s).
+    - eapply Permutation_in; [apply sort_items_perm|]. apply in_or_app. right. left. reflexivity.
+    - apply in_or_app. right. left. reflexivity. }
+  apply jget_unique; [exact Hin|].
+  intros v' Hv'. unfold base_post in Hv'. apply in_app_or in Hv' as [Hv'|Hv'].
+  - destruct (get_skip s); [destruct Hv'|]. destruct Hv' as [Hv'|[]]. exfalso. apply (f_equal fst) in Hv'. vm_compute in Hv'. discriminate.
+  - assert (Hv2 : In (children_key, v') (d ++ [(children_key, ch)])).
+    { destruct (get_sort s); auto. eapply Permutation_in; [apply Permutation_sym, sort_items_perm|exact Hv']. }
+    apply in_app_or in Hv2 as [Hv2|[[= <-]|[]]]; auto. exfalso. subst d.
+    destruct Hv2 as [E1|[E1|[E1|Hv2]]]; try (apply (f_equal fst) in E1; vm_compute in E1; discriminate).
+    apply in_map_iff in Hv2 as [f [[= Ef _] Hf]]. apply (Hnames c f Hf). exact Ef.
+Qed.
+
+(* ---------- the behaviour before the repairs, on witnesses ---------- *)
+Definition sorted_explorer : slots :=
+  {| sl_opts := {| od_skip := None; od_sort := Some true; od_dial := Some DExplorer; od_sidx := None |}; sl_md := None |}.
+Definition wit_fields : list (pystr * sval) := [(lit "id", JStr (lit "x")); (lit "origin", JMap []); (lit "z", JInt 1%Z)].
+(* D16: _children after the sorted keys *)
+Lemma refuted_children_unsorted :
+  tag_first_sorted (node_post {| v_d16 := false; v_stub := true |} sorted_explorer (lit "A") [lit "kid"] wit_fields) = false
+  /\ tag_first_sorted (node_post current_nv sorted_explorer (lit "A") [lit "kid"] wit_fields) = true.
+Proof. vm_compute. auto. Qed.
+
+Definition skip_test : slots :=
+  {| sl_opts := {| od_skip := Some true; od_sort := None; od_dial := Some DTest; od_sidx := None |}; sl_md := None |}.
+Definition sorted_test : slots :=
+  {| sl_opts := {| od_skip := None; od_sort := Some true; od_dial := Some DTest; od_sidx := None |}; sl_md := None |}.
+(* D20: the old stub keeps its tag under SKIP_CLASS *)
+Lemma refuted_skip_class_test_stub :
+  all_mapsb no_tag (JMap (node_post {| v_d16 := true; v_stub := false |} skip_test (lit "A") [] wit_fields)) = false
+  /\ all_mapsb no_tag (JMap (node_post current_nv skip_test (lit "A") [] wit_fields)) = true.
+Proof. vm_compute. auto. Qed.
+(* D21: the old stub lists source_uri before source_type under SORT_KEYS *)
+Lemma refuted_sorted_test_stub :
+  all_mapsb tag_first_sorted (JMap (node_post {| v_d16 := true; v_stub := false |} sorted_test (lit "A") [] wit_fields)) = false
+  /\ all_mapsb tag_first_sorted (JMap (node_post current_nv sorted_test (lit "A") [] wit_fields)) = true.
+Proof. vm_compute. auto. Qed.
